@@ -237,22 +237,79 @@ fn decode_init_reply(abi: &Abi, msgs: &[Vec<u8>]) -> Value {
            "minor": g("minor"), "max_write": g("max_write"), "max_pages": g("max_pages")})
 }
 
-fn negotiate<F: FileSystem + Sync>(abi: &Abi, rng: &mut Rng, server: &Server<F>, pair: &SeqPair, k: &Value) -> (Value, Value, Value) {
-    let hook = Hook { want: Mutex::new(None) };
-    let req = init_request(abi, rng, k);
-    let o = run_fusedev_hook(server, &req, 4096, None, pair, Some(&hook));
-    let r = decode_init_reply(abi, &o.msgs);
-    let want = match *hook.want.lock().unwrap() {
+fn want_json(abi: &Abi, hook: &Hook) -> Value {
+    match *hook.want.lock().unwrap() {
         Some((_c, w)) => {
             let (n, rest) = names_of(abi, w);
             json!({"seen": true, "bits": n, "other": rest.to_string()})
         }
         None => json!({"seen": false, "bits": [], "other": "0"}),
+    }
+}
+
+fn negotiate<F: FileSystem + Sync>(abi: &Abi, rng: &mut Rng, server: &Server<F>, pair: &SeqPair, k: &Value) -> (Value, Value) {
+    let hook = Hook { want: Mutex::new(None) };
+    let req = init_request(abi, rng, k);
+    let o = run_fusedev_hook(server, &req, 4096, None, pair, Some(&hook));
+    (decode_init_reply(abi, &o.msgs), want_json(abi, &hook))
+}
+
+/// What the second INIT of a case offers (K2 of FuseInit.tla): the same, nothing, everything the client's minor allows, or
+/// the complement of the first offer.
+fn second_case(k: &Value, how: &str) -> Value {
+    let scripted = k["stack"] == "scripted";
+    let lo: &[&str] = if scripted { &["ASYNC_READ", "BIG_WRITES", "MAX_PAGES", "INIT_EXT"] } else {
+        &["BIG_WRITES", "WRITEBACK_CACHE", "ZERO_MESSAGE_OPEN", "ZERO_MESSAGE_OPENDIR", "HANDLE_KILLPRIV_V2", "MAX_PAGES", "INIT_EXT"] };
+    let hi: &[&str] = if scripted { &["PERFILE_DAX", "HAS_RESEND"] } else { &["PERFILE_DAX"] };
+    let old22 = ["ASYNC_READ", "BIG_WRITES", "ATOMIC_O_TRUNC", "DO_READDIRPLUS", "READDIRPLUS_AUTO"];
+    let minor = k["minor"].as_str().unwrap();
+    let allow: Vec<&str> = match minor {
+        "m4" => vec![],
+        "m22" => lo.iter().copied().filter(|b| old22.contains(b)).collect(),
+        _ => lo.to_vec(),
     };
-    // second INIT with the same request
-    let o2 = run_fusedev_hook(server, &req, 4096, None, pair, None);
-    let r2 = decode_init_reply(abi, &o2.msgs);
-    (r, want, json!(r2["status"]))
+    let allow2: Vec<&str> = if minor == "m33" { hi.to_vec() } else { vec![] };
+    let has = |a: &Value, b: &str| a.as_array().unwrap().iter().any(|x| x == b);
+    let mut k2 = k.clone();
+    match how {
+        "same" => {}
+        "none" => {
+            k2["flags"] = json!([]);
+            k2["flags2"] = json!([]);
+            k2["ext"] = json!(false);
+        }
+        "full" => {
+            k2["flags"] = json!(allow);
+            k2["flags2"] = json!(allow2);
+            k2["ext"] = json!(minor == "m33");
+        }
+        _ => {
+            k2["flags"] = json!(allow.iter().filter(|b| !has(&k["flags"], b)).collect::<Vec<_>>());
+            k2["flags2"] = json!(allow2.iter().filter(|b| !has(&k["flags2"], b)).collect::<Vec<_>>());
+            k2["ext"] = json!(minor == "m33");
+        }
+    }
+    k2
+}
+
+fn destroy_request(abi: &Abi, rng: &mut Rng) -> Vec<u8> {
+    let mut h = Vals::new();
+    h.insert("len".into(), 40);
+    h.insert("opcode".into(), abi.konst("FUSE_DESTROY"));
+    h.insert("unique".into(), rng.next());
+    abi.encode("fuse_in_header", &h)
+}
+
+/// The second session of a case: optionally DESTROY, then an INIT that offers something else.
+fn second<F: FileSystem + Sync>(abi: &Abi, rng: &mut Rng, server: &Server<F>, pair: &SeqPair, k: &Value) -> Value {
+    let how = if k["major"] == "eq" { *rng.pick(&["same", "none", "full", "compl", "none", "compl"]) } else { "same" };
+    let destroyed = rng.chance(1, 2);
+    if destroyed {
+        let _ = run_fusedev_hook(server, &destroy_request(abi, rng), 4096, None, pair, None);
+    }
+    let k2 = second_case(k, how);
+    let (r2, want2) = negotiate(abi, rng, server, pair, &k2);
+    json!({"how": how, "destroyed": destroyed, "k": k2, "r": r2, "want": want2})
 }
 
 fn main() {
@@ -279,15 +336,19 @@ fn main() {
                 let fs = Arc::new(ScriptedFs::new("s"));
                 fs.set(Ret::Init(bits_of(&abi, &k["want"])));
                 let server = Server::new(fs.clone());
-                let (r, w, s) = negotiate(&abi, &mut rng, &server, &pair, k);
+                let (r, w) = negotiate(&abi, &mut rng, &server, &pair, k);
+                let mut s = second(&abi, &mut rng, &server, &pair, k);
+                s["t"] = no_t.clone();
                 (r, w, s, no_t.clone())
             }
             "pt" => {
                 mktree(&dir);
                 let fs = Arc::new(PassthroughFs::<()>::new(pt_config(&dir, &k["sw"], true)).expect("pt"));
                 let server = Server::new(fs.clone());
-                let (r, w, s) = negotiate(&abi, &mut rng, &server, &pair, k);
+                let (r, w) = negotiate(&abi, &mut rng, &server, &pair, k);
                 let t = if r["status"] == "ok" && k["major"] == "eq" { probe(&*fs, &dir) } else { no_t.clone() };
+                let mut s = second(&abi, &mut rng, &server, &pair, k);
+                s["t"] = if r["status"] == "ok" && k["major"] == "eq" { probe(&*fs, &dir) } else { no_t.clone() };
                 (r, w, s, t)
             }
             "vfs_pt" => {
@@ -304,8 +365,27 @@ fn main() {
                 pt.import().expect("import");
                 vfs.mount(Box::new(pt), "/").expect("mount");
                 let server = Server::new(vfs.clone());
-                let (r, w, s) = negotiate(&abi, &mut rng, &server, &pair, k);
-                let t = if r["status"] == "ok" && k["major"] == "eq" { probe(&*vfs, &dir) } else { no_t.clone() };
+                // the VFS's own record of the negotiation: its switches and the capability set it hands to backends
+                let snapshot = |vfs: &Vfs| -> Value {
+                    let o = vfs.options();
+                    let (names, _) = names_of(&abi, o.out_opts.bits());
+                    json!({"no_open": o.no_open, "no_opendir": o.no_opendir, "out": names})
+                };
+                let (r, w) = negotiate(&abi, &mut rng, &server, &pair, k);
+                let mut t = if r["status"] == "ok" && k["major"] == "eq" { probe(&*vfs, &dir) } else { no_t.clone() };
+                t["vo"] = snapshot(&vfs);
+                let mut s = second(&abi, &mut rng, &server, &pair, k);
+                s["t"] = if r["status"] == "ok" && k["major"] == "eq" { probe(&*vfs, &dir) } else { no_t.clone() };
+                s["t"]["vo"] = snapshot(&vfs);
+                // a backend mounted now is initialised with what is in force
+                let late = ScriptedFs::new("late");
+                late.set(Ret::Init(0));
+                let mounted = vfs.mount(Box::new(late.clone()), "/late").is_ok();
+                let cap = late.take_log().iter().find(|c| c["m"] == "init").map(|c| c["args"]["capable"].as_str().unwrap().parse::<u64>().unwrap());
+                s["late"] = match cap {
+                    Some(c) => json!({"mounted": mounted, "init": true, "capable": names_of(&abi, c).0}),
+                    None => json!({"mounted": mounted, "init": false, "capable": []}),
+                };
                 (r, w, s, t)
             }
             _ => {
@@ -335,9 +415,9 @@ fn main() {
                 };
                 let ovl = Arc::new(OverlayFs::new(Some(Arc::new(mk(&upper))), vec![Arc::new(mk(&dir))], cfg).expect("overlay"));
                 let server = Server::new(ovl.clone());
-                let (r, w, s) = negotiate(&abi, &mut rng, &server, &pair, k);
+                let (r, w) = negotiate(&abi, &mut rng, &server, &pair, k);
                 // overlay: only the open/opendir switches are probed (the others need privileges on layers)
-                let t = if r["status"] == "ok" && k["major"] == "eq" {
+                let oprobe = || -> Value {
                     let ctx = Context::default();
                     let f = ovl.lookup(&ctx, 1, &CString::new("f").unwrap());
                     let d = ovl.lookup(&ctx, 1, &CString::new("d").unwrap());
@@ -349,9 +429,11 @@ fn main() {
                         }
                         _ => json!({"error": "overlay lookup failed"}),
                     }
-                } else {
-                    no_t.clone()
                 };
+                let live = r["status"] == "ok" && k["major"] == "eq";
+                let t = if live { oprobe() } else { no_t.clone() };
+                let mut s = second(&abi, &mut rng, &server, &pair, k);
+                s["t"] = if live { oprobe() } else { no_t.clone() };
                 (r, w, s, t)
             }
         };
